@@ -403,11 +403,98 @@ def check_consumer(prog: Program, res: Result) -> None:
            "the batch loop is not a bounded for-loop over range(batch_size)", f"{fi.module.relpath}:{inner.lineno}")
 
 
+def _in_video_branch(call: ast.Call) -> bool:
+    """Is the call in the body of an `if/elif self.provider == "VideoReader"` arm?"""
+    from ..core.program import ancestors
+    child = call
+    for a in ancestors(call):
+        if isinstance(a, ast.If) and "VideoReader" in norm(a.test) and any(child is b or child in list(ast.walk(b)) for b in a.body):
+            return True
+        child = a
+    return False
+
+
+def check_range(prog: Program, res: Result) -> None:
+    """The requested range (start_idx, end_idx) reaches the read loop unchanged: an absent bound is recognised by
+    identity with None - never by truthiness, because 0 is a valid index (end_idx=0 is the empty range, not 'whole
+    video') - and the factory forwards both bounds to the constructor."""
+    R = "C13-range"
+    ci = prog.cls(READERS[0])
+    for fi in ci.methods.values():
+        opt = [a.arg for a in fi.node.args.args + fi.node.args.kwonlyargs if a.annotation is not None and norm(a.annotation) in ("Optional[int]", "Union[int, None]", "int | None")]
+        if not opt:
+            continue
+        res.touch(fi)
+        # names that hold the raw (possibly None) bound: the parameter and self.<x> copies of it
+        holders = {p: {p} for p in opt}
+        for st in walk_function(fi.node):
+            if isinstance(st, ast.Assign) and isinstance(st.value, ast.Name) and st.value.id in holders:
+                for t in st.targets:
+                    holders[st.value.id].add(norm(t))
+        for prm, hs in holders.items():
+            bad = None
+            for n in walk_function(fi.node):
+                if isinstance(n, ast.BoolOp) and norm(n.values[0]) in hs:
+                    last = n.values[-1]
+                    if isinstance(n.op, ast.Or) and astq.const_value(last) == 0 and len(n.values) == 2:
+                        continue  # `x or 0`: 0 and None both give 0
+                    bad = n
+                elif isinstance(n, (ast.If, ast.IfExp, ast.While)):
+                    t = n.test
+                    if isinstance(t, ast.UnaryOp) and isinstance(t.op, ast.Not):
+                        t = t.operand
+                    if norm(t) in hs:
+                        bad = n.test
+            res.ob(R, bad is None, fi.qualname, f"absent `{prm}` recognised by `is None`",
+                   f"`{short(bad, 60) if bad is not None else ''}` decides the default of `{prm}` by truthiness: the valid index 0 is treated as absent "
+                   "(end_idx=0 reads the whole video instead of nothing)", f"{fi.module.relpath}:{getattr(bad, 'lineno', fi.node.lineno)}")
+        # forwarding through factories: cls(..., start_idx, end_idx)
+        for c in walk_function(fi.node):
+            if isinstance(c, ast.Call) and isinstance(c.func, ast.Name) and c.func.id == "cls":
+                init = ci.methods.get("__init__")
+                bound = astq.bind_args(init, c, skip_self=True) if init is not None else {}
+                for prm in opt:
+                    v = bound.get(prm)
+                    res.ob(R, v is not None and norm(v) == prm, fi.qualname, f"factory forwards `{prm}`",
+                           f"`{short(c, 60)}` passes {short(v, 30) if v is not None else 'nothing'} as `{prm}`: the requested range is not the one read",
+                           f"{fi.module.relpath}:{c.lineno}")
+    # forwarding from the public entry point down to the reader
+    pm = prog.modules["sleap_nn.inference.predictors"]
+    n_fwd = 0
+    for fi in prog.functions.values():
+        if fi.module is not pm:
+            continue
+        for c in walk_function(fi.node):
+            if not isinstance(c, ast.Call) or not isinstance(c.func, ast.Attribute):
+                continue
+            if c.func.attr == "from_filename" and (any(k.arg in ("start_idx", "end_idx") for k in c.keywords) or _in_video_branch(c)):
+                res.touch(fi)
+                kw = {k.arg: k.value for k in c.keywords}
+                for a, b in (("start_idx", "video_start_idx"), ("end_idx", "video_end_idx")):
+                    n_fwd += 1
+                    res.ob(R, a in kw and norm(kw[a]) == b, fi.qualname, f"make_pipeline forwards {b} as {a}",
+                           f"`{short(c, 50)}` passes {short(kw[a], 30) if a in kw else 'nothing'} as `{a}`: the requested range is not the one read",
+                           f"{fi.module.relpath}:{c.lineno}")
+            elif c.func.attr == "make_pipeline" and "predictor" in norm(c.func.value):
+                res.touch(fi)
+                tgt = prog.cls("sleap_nn.inference.predictors:Predictor").methods.get("make_pipeline")
+                bound = astq.bind_args(tgt, c, skip_self=True) if tgt is not None else {}
+                for a, b in (("video_start_idx", "videoreader_start_idx"), ("video_end_idx", "videoreader_end_idx")):
+                    n_fwd += 1
+                    v = bound.get(a)
+                    res.ob(R, v is not None and norm(v) == b, fi.qualname, f"{fi.name}() forwards {b}",
+                           f"`{short(c, 50)}` passes {short(v, 30) if v is not None else 'nothing'} as `{a}`", f"{fi.module.relpath}:{c.lineno}")
+    if n_fwd < 8:
+        raise AnalysisError(f"C13-range: only {n_fwd} range-forwarding obligations found (expected 3 make_pipeline implementations + run_inference)")
+    res.floor(R, 12)
+
+
 def check(prog: Program, res: Result) -> None:
     for r in READERS:
         check_reader(prog, res, r)
     check_ownership(prog, res)
     check_consumer(prog, res)
+    check_range(prog, res)
     res.floor("C13-final", 10)
     res.floor("C13-once", 14)
     res.floor("C13-cons", 12)
@@ -447,7 +534,15 @@ VARIANTS = [
     Variant("second-producer", Q, "        self.pipeline.start()\n",
             "        self.pipeline.start()\n        self.pipeline.frame_buffer.put({\"image\": None})\n", "C13-own"),
     Variant("no-join", Q, "        self.pipeline.join()\n", "        pass\n", "C13-cons"),
+    Variant("range-truthy-default", P, "        self.end_idx = end_idx\n        if self.start_idx is None:\n            self.start_idx = 0\n        if self.end_idx is None:\n            self.end_idx = self.video.shape[0]",
+            "        self.end_idx = end_idx or self.video.shape[0]\n        if self.start_idx is None:\n            self.start_idx = 0", "C13-range"),
+    Variant("range-if-not", P, "        if self.end_idx is None:\n            self.end_idx = self.video.shape[0]", "        if not self.end_idx:\n            self.end_idx = self.video.shape[0]", "C13-range"),
+    Variant("range-factory-drops-end", P, "        return cls(video, frame_buffer, start_idx, end_idx)", "        return cls(video, frame_buffer, start_idx)", "C13-range"),
+    Variant("range-forward-swapped", Q, "                start_idx=video_start_idx,\n                end_idx=video_end_idx,", "                start_idx=video_end_idx,\n                end_idx=video_start_idx,", "C13-range"),
+    Variant("range-entry-drops-end", Q, "        provider, data_path, queue_maxsize, videoreader_start_idx, videoreader_end_idx\n", "        provider, data_path, queue_maxsize, videoreader_start_idx\n", "C13-range"),
     # behaviour-preserving
+    Variant("bp-range-start-or-zero", P, "        self.start_idx = start_idx\n        self.end_idx = end_idx\n        if self.start_idx is None:\n            self.start_idx = 0\n",
+            "        self.start_idx = start_idx or 0\n        self.end_idx = end_idx\n", None),
     Variant("bp-rename-loop-var", P, "for idx in range(self.start_idx, self.end_idx):\n                img = self.video[idx]",
             "for idx in range(self.start_idx, self.end_idx):\n                img = self.video[int(idx)]", None),
     Variant("bp-sentinel-via-name", P,
